@@ -145,6 +145,8 @@ func repeatRaws() []string {
 		"x  \n     y", "x \t \n     y", "x\n\n     y", "x\n   y\n       z", "\n     y", "x\n     ", "x\n", "\n", "x\n     y  \n  z",
 		"é\n     é", "éé\n  é é\n      é", "a\\n\n     b", "x\n     \\ty", "x\n    \\\\ y", "x\n     y\\\"", "x\n      a\tb", "x\n     y\tz\t\n     w",
 		"x\n     { ; }\n  // c\n      /* c */ '", "x\\\\\n     y",
+		// carriage returns that are not part of a CR LF pair: text
+		"x\r \n     y", "a\rb", "x \r\t\n  \ry\r",
 		// tabs among the leading blanks (inside the claim for some quote columns only)
 		"x\n\ty", "x\n\t\ty", "x\n        \ty", "x\n\t  y", "x\n    \ty", "x\n\t    \tz",
 		// undefined backslash pairs: accepted in the argument of pattern only
@@ -295,20 +297,31 @@ func RepeatedOther(emit func(Case)) {
 	}
 }
 
-// cleanPiece is a random double-quoted piece without the constructs the claim excludes: no CR, no tab among
-// the leading blanks of a continuation line, no escaped blank before a line break.  Tabs stand after a
-// non-blank character or among trailing blanks only.
+// cleanPiece is a random double-quoted piece without the constructs the claim excludes: no CR immediately
+// before a line break (a carriage return elsewhere — inside a line, separated from the line break by blanks,
+// first on a continuation line — is text), no tab among the leading blanks of a continuation line, no escaped
+// blank before a line break.  Tabs stand after a non-blank character or among trailing blanks only.
 func cleanPiece(r *rand.Rand, pattern bool) string {
 	var sb strings.Builder
 	n := 1 + r.Intn(7)
 	atLineStart := false
 	lastEscBlank := false
+	lastCR := false
 	for i := 0; i < n; i++ {
 		k := r.Intn(20)
+		if k >= 9 && k < 14 && lastCR {
+			// a line break right after a carriage return would be a CR LF pair: blanks in between
+			sb.WriteString([]string{" ", "\t", "  ", " \t "}[r.Intn(4)])
+		}
+		if k < 6 || k >= 9 {
+			lastCR = false
+		}
 		switch {
 		case k < 6:
-			sb.WriteString([]string{"a", "word", "é", "x y", ";", "{", "}", "'", "//", "/* */", "+"}[r.Intn(11)])
+			w := []string{"a", "word", "é", "x y", ";", "{", "}", "'", "//", "/* */", "+", "\r", "a\rb", "\u00a0"}[r.Intn(14)]
+			sb.WriteString(w)
 			atLineStart, lastEscBlank = false, false
+			lastCR = w == "\r"
 		case k < 8:
 			sb.WriteString(sp(1 + r.Intn(3)))
 		case k < 9:
